@@ -119,6 +119,42 @@ def h_probe(ctx, digits):
   ctx.witness('probe')
 
 
+def h_foreign_probe(ctx, form):
+  """probes in the other encodings the component says it understands (it has to interoperate with probes it did not build itself): 'mac' - no
+  system description, the chassis id is a MAC holding a dpid < 2^48; 'raw8' - the system description is the 8-byte big-endian dpid (FlowVisor
+  style; any 64-bit value: the bytes need not be text); 'binary' - a system description of arbitrary bytes beside a usable 'dpid:' chassis id.
+  The PacketIn handler raises nothing and the adjacency gains exactly the link the probe travelled."""
+  d1 = 0x2a5 if form == 'binary' else ctx.int('dpid1', 1, (1 << 48) - 1 if form != 'raw8' else (1 << 64) - 1)
+  d2 = ctx.int('dpid2', 0, (1 << 64) - 1)
+  p1 = ctx.int('port1', 1, 0xff00); p2 = ctx.int('port2', 1, 0xff00)
+  ctx.assume(ctx.Not(ctx.And(d1 == d2, p1 == p2)))
+  # (the decoder is lenient by design: a 2-byte port id made of ASCII digits reads as a decimal text, 8 raw bytes that spell a 'dpid:' line read as text)
+  ctx.assume(ctx.Not(ctx.And((p1 >> 8) >= 0x30, (p1 >> 8) <= 0x39, (p1 & 255) >= 0x30, (p1 & 255) <= 0x39)))
+  if form == 'raw8':
+    ctx.assume(ctx.And(*[((d1 >> (8 * k)) & 255) != 10 for k in range(8)]))
+    ctx.assume((d1 >> 24) != 0x647069643a)
+  core, of, ofp, D, nexus, disc, clock, events = setup(ctx, [d1, d2])
+  def tlv(t, body): return [(t << 1) | (len(body) >> 8), len(body) & 255] + body
+  def be(v, n): return [(v >> (8 * (n - 1 - i))) & 0xff for i in range(n)]
+  if form == 'mac': chassis = tlv(1, [4] + be(d1, 6)); sysdesc = []
+  elif form == 'raw8': chassis = tlv(1, [7] + list(b'sw')); sysdesc = tlv(6, be(d1, 8))
+  else:
+    chassis = tlv(1, [7] + list(b'dpid:2a5')); sysdesc = tlv(6, list(ctx.bytes('sysdesc', 5)))
+  frame = [0x01, 0x23, 0x20, 0, 0, 1, 2, 0, 0, 0, 0, 9, 0x88, 0xcc] + chassis + tlv(2, [2] + be(p1, 2)) + tlv(3, [0, 120]) + sysdesc + tlv(0, [])
+  from props import env
+  pin = of.ofp_packet_in(in_port=p2, data=env.tobytes(ctx, frame), reason=0)
+  _, pin2 = of.ofp_packet_in.unpack_new(pin.pack())
+  ev = ofp.PacketIn(nexus.getConnection(d2), pin2)
+  disc._handle_openflow_PacketIn(ev)
+  links = list(disc.adjacency.keys())
+  ctx.check('exactly one link learned', len(links) == 1)
+  if len(links) == 1:
+    l = links[0]
+    ctx.check('link is (dpid, port) -> (dpid2, port2)', ctx.And(l.dpid1 == d1, l.port1 == p1, l.dpid2 == d2, l.port2 == p2))
+  ctx.check('one LinkEvent(add)', len(events) == 1 and events[0][0] is True)
+  ctx.witness('probe')
+
+
 def h_adjacency(ctx, npre, op):
   d = [ctx.int('dpid%d' % i, 1, 0xffff) for i in range(3)]
   for i in range(3):
@@ -337,6 +373,8 @@ def obligations(tier):
   return [
     Obligation('O1_probe', h_probe, [dict(digits=k) for k in range(1, 17)], witnesses=('probe',), max_decisions=30000,
                desc='probe encoding -> packet_out -> packet_in -> adjacency gains exactly the probed link'),
+    Obligation('O1_foreign_probe', h_foreign_probe, [dict(form=f) for f in ('mac', 'raw8', 'binary')], witnesses=('probe',), max_decisions=30000,
+               desc='probes in the other encodings the component accepts (MAC chassis id, 8-byte binary system description, arbitrary system description bytes)'),
     Obligation('O2_adjacency', h_adjacency, adj, witnesses=('done', 'expired', 'kept'), max_decisions=30000,
                desc='one event from a reachable adjacency: add/refresh/expire/withdraw vs reference'),
     Obligation('O3_forest', h_forest, forest, witnesses=('done',), max_decisions=30000, conc_cap=70000,
